@@ -158,6 +158,24 @@ def check(rep, tier, seed0):
                                   "pair recorded in a run that followed an in-process re-seed (%s) does not continue as the original: "
                                   "record %d: %r vs %r" % (name, cnt, st, cfg, d[0], d[1], d[2]),
                                   {"seed": seed, "freq": freq, "width": width, "prog": name, "count": cnt, "state": st})
+        # one scheduler for the whole process (virtual time is not reset by SetSeed): two runs after re-seeding, and the
+        # first of them against the run under fresh schedulers -- only time differences may matter
+        k, e6 = run_repro(exe, seed, freq, width, PROGS, extra=["--twice", "--keep-sched"])
+        pairs += 1
+        if k is None:
+            rep.violation("crash/repro-kept", "runs under one long-lived scheduler failed (%s): %s" % (cfg, e6), {"seed": seed})
+        else:
+            kr = split_runs(k)
+            if len(kr) == 2:
+                k0, k1 = sections(kr[0]), sections(kr[1])
+                for name in PROGS:
+                    d = first_diff(renorm(k0[name][1]), renorm(k1[name][1])) or first_diff(renorm(secs_a[name][1]), renorm(k0[name][1]))
+                    if d:
+                        rep.violation("kept-scheduler/%s" % name, "program %s: under one long-lived scheduler the run repeated after "
+                                      "SetSeed + injector reset (or the run under a fresh scheduler) (%s) differs at record %d: "
+                                      "%r vs %r -- the schedule depends on the absolute virtual time" % (name, cfg, d[0], d[1], d[2]),
+                                      {"seed": seed, "freq": freq, "width": width, "prog": name})
+                        break
         # restore every program from the pair recorded in the first run, in a fresh process
         for name in PROGS[1:]:
             cnt, st = secs_a[name][0]
